@@ -85,9 +85,132 @@ Proof.
   unfold safe_deposit. repeat case_match; intros [= <- <-]; auto using frame_bk_refl, frame_bk_set.
 Qed.
 
-Lemma run_hook_frame c s h s1 ok : run_hook c s h = (s1, ok) → frame_bk_seqs s s1.
+Fixpoint upto (k : nat) (lo : N) : list N :=
+  match k with O => [] | S k' => lo :: upto k' (lo + 1)%N end.
+
+Lemma upto_snoc k lo : upto (S k) lo = upto k lo ++ [(lo + N.of_nat k)%N].
 Proof.
-  unfold run_hook. repeat case_match; intros [= <- <-]; repeat split.
+  revert lo; induction k as [|k IH]; intros lo.
+  - cbn. f_equal. lia.
+  - change (upto (S (S k)) lo) with (lo :: upto (S k) (lo + 1)%N). rewrite IH. cbn. do 3 f_equal. lia.
+Qed.
+
+Lemma upto_app k1 k2 lo : upto (k1 + k2) lo = upto k1 lo ++ upto k2 (lo + N.of_nat k1)%N.
+Proof.
+  revert lo; induction k1 as [|k1 IH]; intros lo; cbn -[N.of_nat].
+  - f_equal. lia.
+  - f_equal. rewrite IH. do 2 f_equal. lia.
+Qed.
+
+
+Lemma withdraw_Some c s sender to d amt s' r :
+  withdraw c s sender to d amt = Some (s', r) →
+  ∃ a b1 b2 base,
+    resolve c sender = Some a ∧ to ≠ [] ∧ valid_denom d = true ∧ (0 < amt)%Z ∧
+    bank_send (bk s) a (modacc c) d amt = Some b1 ∧ bank_burn b1 (modacc c) d amt = Some b2 ∧
+    pairs s !! d = Some base ∧ r = RSeq (next_l2 s) ∧
+    s' = push_withdrawal (set_bk s b2)
+           {| w_seq := next_l2 s; w_from := sender; w_to := to; w_denom := d; w_base := base;
+              w_amt := amt; w_refund := false |}.
+Proof.
+  unfold withdraw. intros H.
+  apply bind_Some in H as (a & Ha & H).
+  case_bool_decide as Hto; [discriminate|].
+  destruct (valid_denom d && (0 <? amt)%Z && (amt <? 18446744073709551616)%Z) eqn:Hv; [|discriminate]. cbn [negb] in H.
+  apply andb_true_iff in Hv as [Hv _]. apply andb_true_iff in Hv as [Hd Hamt]. apply Z.ltb_lt in Hamt.
+  apply bind_Some in H as (b1 & Hb1 & H). apply bind_Some in H as (b2 & Hb2 & H).
+  apply bind_Some in H as (base & Hbase & H). injection H as <- <-.
+  exists a, b1, b2, base. auto 12.
+Qed.
+
+Lemma withdraw_uint64 c s sender to d amt s' r :
+  withdraw c s sender to d amt = Some (s', r) → (amt < 18446744073709551616)%Z.
+Proof.
+  unfold withdraw. intros H. apply bind_Some in H as (a & _ & H).
+  case_bool_decide; [discriminate|].
+  destruct (valid_denom d && (0 <? amt)%Z && (amt <? 18446744073709551616)%Z) eqn:Hv; [|discriminate].
+  apply andb_true_iff in Hv as [_ Hv]. by apply Z.ltb_lt in Hv.
+Qed.
+
+
+(* ---- the hook: what its messages can change ---- *)
+Definition frame_hook (s s' : l2state) : Prop :=
+  next_l1 s' = next_l1 s ∧ pairs s' = pairs s ∧ prm s' = prm s ∧ info s' = info s ∧
+  vs s' = vs s ∧ dlog s' = dlog s.
+
+(* the withdrawal records appended between two states were all emitted by user-level
+   withdrawal messages (none is a refund) and carry consecutive sequences *)
+Definition user_records (s s' : l2state) : Prop :=
+  ∃ ws, wlog s' = ws ++ wlog s ∧ next_l2 s' = (next_l2 s + N.of_nat (length ws))%N ∧
+        Forall (λ w, w_refund w = false) ws ∧ map w_seq ws = rev (upto (length ws) (next_l2 s)).
+
+Lemma user_records_refl s s' : wlog s' = wlog s → next_l2 s' = next_l2 s → user_records s s'.
+Proof. intros H1 H2. exists []. cbn. rewrite H1, H2. split; [done|]. split; [lia|]. split; [constructor|done]. Qed.
+
+Lemma user_records_trans s1 s2 s3 : user_records s1 s2 → user_records s2 s3 → user_records s1 s3.
+Proof.
+  intros (w1 & Hw1 & Hn1 & Hf1 & Hs1) (w2 & Hw2 & Hn2 & Hf2 & Hs2). exists (w2 ++ w1).
+  rewrite Hw2, Hw1, app_assoc. split; [done|]. rewrite app_length. split; [lia|].
+  split; [by apply Forall_app|]. rewrite map_app, Hs2, Hs1, Hn1.
+  rewrite (Nat.add_comm (length w2)), upto_app, rev_app_distr. done.
+Qed.
+
+Lemma frame_hook_refl s : frame_hook s s.
+Proof. repeat split. Qed.
+Lemma frame_hook_trans s1 s2 s3 : frame_hook s1 s2 → frame_hook s2 s3 → frame_hook s1 s3.
+Proof. unfold frame_hook. intros (?&?&?&?&?&?) (?&?&?&?&?&?). repeat split; congruence. Qed.
+
+Lemma withdraw_user_record c s sender to d amt s' r :
+  withdraw c s sender to d amt = Some (s', r) → frame_hook s s' ∧ seqs s' = seqs s ∧ user_records s s'.
+Proof.
+  intros H. apply withdraw_Some in H as (a & b1 & b2 & base & _ & _ & _ & _ & _ & _ & _ & _ & ->).
+  split; [repeat split|]. split; [done|].
+  eexists [_]. cbn. split; [reflexivity|]. split; [lia|]. split; [by repeat constructor|done].
+Qed.
+
+Lemma hook_msg_spec c s signer m s' :
+  hook_msg c s signer m = Some s' → frame_hook s s' ∧ seqs s' = seqs s ∧ user_records s s'.
+Proof.
+  destruct m as [to d amt|sender to d amt]; cbn [hook_msg].
+  - intros H. apply bind_Some in H as (b & _ & [= <-]).
+    split; [repeat split|]. split; [done|]. by apply user_records_refl.
+  - destruct (negb _); [discriminate|]. intros H. apply bind_Some in H as ([s1 r1] & Hw & [= <-]).
+    eapply withdraw_user_record; eauto.
+Qed.
+
+Lemma hook_fold_None c signer msgs :
+  foldl (λ os m, s ← os; hook_msg c s signer m) None msgs = None.
+Proof. induction msgs; cbn; auto. Qed.
+
+Lemma hook_fold_spec c signer msgs : ∀ s s',
+  foldl (λ os m, s ← os; hook_msg c s signer m) (Some s) msgs = Some s' →
+  frame_hook s s' ∧ seqs s' = seqs s ∧ user_records s s'.
+Proof.
+  induction msgs as [|m msgs IH]; intros s s'; cbn [foldl].
+  - intros [= <-]. split; [apply frame_hook_refl|]. split; [done|]. by apply user_records_refl.
+  - cbn [mbind option_bind]. destruct (hook_msg c s signer m) as [s1|] eqn:E.
+    + intros H. apply IH in H as (F2 & Q2 & U2). apply hook_msg_spec in E as (F1 & Q1 & U1).
+      split; [eapply frame_hook_trans; eauto|]. split; [congruence|]. eapply user_records_trans; eauto.
+    + rewrite hook_fold_None. discriminate.
+Qed.
+
+(* the hook as a whole; a failing hook leaves everything but the account sequences alone *)
+Lemma run_hook_frame c s h s1 ok :
+  run_hook c s h = (s1, ok) →
+  frame_hook s s1 ∧ user_records s s1 ∧
+  (ok = false → wlog s1 = wlog s ∧ next_l2 s1 = next_l2 s ∧ bk s1 = bk s).
+Proof.
+  unfold run_hook. destruct h as [| |signer tseq sig_ok msgs].
+  - intros [= <- <-]. split; [apply frame_hook_refl|]. split; [by apply user_records_refl|done].
+  - intros [= <- <-]. split; [apply frame_hook_refl|]. split; [by apply user_records_refl|done].
+  - destruct (p_hookgas (prm s) <? hook_gas_floor)%N.
+    { intros [= <- <-]. split; [apply frame_hook_refl|]. split; [by apply user_records_refl|done]. }
+    destruct (negb _).
+    { intros [= <- <-]. split; [apply frame_hook_refl|]. split; [by apply user_records_refl|done]. }
+    destruct (foldl _ _ msgs) as [s2|] eqn:Hf.
+    + intros [= <- <-]. apply hook_fold_spec in Hf as (F & _ & U). cbn in F, U.
+      split; [exact F|]. split; [exact U|discriminate].
+    + intros [= <- <-]. split; [repeat split|]. split; [by apply user_records_refl|done].
 Qed.
 
 (* ---- finalize_deposit ---- *)
@@ -101,7 +224,7 @@ Lemma finalize_deposit_Some c s m s' r :
    (r = RSuccess ∧ fd_seq m = next_l1 s ∧ next_l1 s' = (next_l1 s + 1)%N ∧
     ∃ ok, dlog s' = deposit_rec m ok :: dlog s ∧
           prm s' = prm s ∧ info s' = info s ∧ vs s' = vs s ∧
-          ((ok = true ∧ wlog s' = wlog s ∧ next_l2 s' = next_l2 s) ∨
+          ((ok = true ∧ user_records s s') ∨
            (ok = false ∧ next_l2 s' = (next_l2 s + 1)%N ∧
             ∃ base, wlog s' = {| w_seq := next_l2 s; w_from := fd_to m; w_to := fd_from m;
                                  w_denom := fd_denom m; w_base := base; w_amt := fd_amt m;
@@ -131,16 +254,20 @@ Proof.
   destruct F3 as (F3a & F3b & F3c & F3d & F3e & F3f & F3g).
   destruct (if dep_ok && hook_nonempty (fd_hook m) then run_hook c s3 (fd_hook m) else (s3, true))
     as [s4 hook_ok] eqn:Hhook.
-  assert (F4 : frame_bk_seqs s3 s4).
-  { destruct (dep_ok && hook_nonempty (fd_hook m)); [eapply run_hook_frame; eauto|].
-    injection Hhook as <- <-. apply frame_bk_weaken, frame_bk_refl. }
-  destruct F4 as (F4a & F4b & F4c & F4d & F4e & F4f & F4g & F4h).
+  assert (F4 : frame_hook s3 s4 ∧ user_records s3 s4 ∧
+               (hook_ok = false → wlog s4 = wlog s3 ∧ next_l2 s4 = next_l2 s3)).
+  { destruct (dep_ok && hook_nonempty (fd_hook m)).
+    - apply run_hook_frame in Hhook as (F & U & Hk). split; [done|]. split; [done|]. intros Hf. by destruct (Hk Hf) as (? & ? & _).
+    - injection Hhook as <- <-. split; [apply frame_hook_refl|]. split; [by apply user_records_refl|done]. }
+  destruct F4 as ((F4a & F4c & F4d & F4e & F4f & F4h) & F4u & F4k).
+  assert (U4 : user_records s s4).
+  { destruct F4u as (ws & Hw & Hn & Hf & Hs). exists ws. rewrite Hw, Hn, Hs, F3b, F3f. auto. }
   destruct (dep_ok && hook_ok) eqn:Hok.
   { intros [= <- <-]. split; [done|]. split; [done|]. right.
     split; [done|]. split; [done|]. split; [cbn; congruence|].
     exists true. cbn. split; [unfold deposit_rec; congruence|].
     split; [congruence|]. split; [congruence|]. split; [congruence|].
-    left. split; [done|]. split; congruence. }
+    left. split; [done|]. exact U4. }
   intros Hrest. apply bind_Some in Hrest as (s5 & Hs5 & Hrest).
   apply bind_Some in Hrest as (base & Hbase & Hrest). injection Hrest as <- <-.
   assert (F5 : frame_bk s4 s5).
@@ -148,6 +275,10 @@ Proof.
     apply bind_Some in Hs5 as (a & _ & Hs5). apply bind_Some in Hs5 as (b1 & _ & Hs5).
     apply bind_Some in Hs5 as (b2 & _ & Hs5). injection Hs5 as <-. apply frame_bk_set. }
   destruct F5 as (F5a & F5b & F5c & F5d & F5e & F5f & F5g & F5h & F5i).
+  assert (Hkeep : wlog s4 = wlog s3 ∧ next_l2 s4 = next_l2 s3).
+  { destruct hook_ok; [|by apply F4k]. rewrite andb_true_r in Hok. subst dep_ok.
+    cbn [andb] in Hhook. by injection Hhook as <-. }
+  destruct Hkeep as (K1 & K2).
   split; [done|]. split; [done|]. right.
   split; [done|]. split; [done|]. split; [cbn; congruence|].
   exists false. cbn. split; [unfold deposit_rec; congruence|].
@@ -177,27 +308,6 @@ Lemma finalize_deposit_unauth c s m : is_executor c s (fd_sender m) = false → 
 Proof. intros He. unfold finalize_deposit. rewrite He. destruct (fdep_valid c m); reflexivity. Qed.
 
 (* ---- the other handlers: exact shape of the successor state ---- *)
-Lemma withdraw_Some c s sender to d amt s' r :
-  withdraw c s sender to d amt = Some (s', r) →
-  ∃ a b1 b2 base,
-    resolve c sender = Some a ∧ to ≠ [] ∧ valid_denom d = true ∧ (0 < amt)%Z ∧
-    bank_send (bk s) a (modacc c) d amt = Some b1 ∧ bank_burn b1 (modacc c) d amt = Some b2 ∧
-    pairs s !! d = Some base ∧ r = RSeq (next_l2 s) ∧
-    s' = push_withdrawal (set_bk s b2)
-           {| w_seq := next_l2 s; w_from := sender; w_to := to; w_denom := d; w_base := base;
-              w_amt := amt; w_refund := false |}.
-Proof.
-  unfold withdraw. intros H.
-  apply bind_Some in H as (a & Ha & H).
-  case_bool_decide as Hto; [discriminate|].
-  destruct (valid_denom d && (0 <? amt)%Z && (amt <? two64)%Z) eqn:Hv; [|discriminate]. cbn [negb] in H.
-  apply andb_true_iff in Hv as [Hv _].
-  apply andb_true_iff in Hv as [Hd Hamt]. apply Z.ltb_lt in Hamt.
-  apply bind_Some in H as (b1 & Hb1 & H). apply bind_Some in H as (b2 & Hb2 & H).
-  apply bind_Some in H as (base & Hbase & H). injection H as <- <-.
-  exists a, b1, b2, base. auto 12.
-Qed.
-
 Lemma set_bridge_info_Some c s sender bi s' r :
   set_bridge_info c s sender bi = Some (s', r) →
   is_executor c s sender = true ∧ binfo_valid bi = true ∧
@@ -264,23 +374,6 @@ Proof.
 Qed.
 
 (* ---- C06: the processed-deposit log ---- *)
-Fixpoint upto (k : nat) (lo : N) : list N :=
-  match k with O => [] | S k' => lo :: upto k' (lo + 1)%N end.
-
-Lemma upto_snoc k lo : upto (S k) lo = upto k lo ++ [(lo + N.of_nat k)%N].
-Proof.
-  revert lo; induction k as [|k IH]; intros lo.
-  - cbn. f_equal. lia.
-  - change (upto (S (S k)) lo) with (lo :: upto (S k) (lo + 1)%N). rewrite IH. cbn. do 3 f_equal. lia.
-Qed.
-
-Lemma upto_app k1 k2 lo : upto (k1 + k2) lo = upto k1 lo ++ upto k2 (lo + N.of_nat k1)%N.
-Proof.
-  revert lo; induction k1 as [|k1 IH]; intros lo; cbn -[N.of_nat].
-  - f_equal. lia.
-  - f_equal. rewrite IH. do 2 f_equal. lia.
-Qed.
-
 (* between two states, exactly the sequences next_l1 s, ..., next_l1 s' - 1 were processed, in order *)
 Definition processed_between (s s' : l2state) : Prop :=
   ∃ k, next_l1 s' = (next_l1 s + N.of_nat k)%N ∧
